@@ -8,7 +8,7 @@ VERIF_REPO=<worktree> (evidence redirected); report which rules fire; on --keep 
 import argparse, json, os, re, shutil, subprocess, sys, tempfile
 
 VERIF = os.path.dirname(os.path.dirname(os.path.abspath(__file__)))
-WT = "/tmp/seedwt/confirm"
+WT = os.environ.get("EVAL_WT", "/tmp/seedwt/confirm")
 PY = "/venv/bin/python"
 
 
